@@ -80,7 +80,8 @@ pub fn block2_input(mt: &str, k: usize, len: usize) -> String {
     }
 }
 pub fn block2_output(mt: &str, k: usize, len: usize) -> String {
-    let base = format!("O{mt}{:02}{:02}2501{:02}BANKBEBBAXXX{:04}{:06}2501{:02}{:02}{:02}", k % 24, k % 60, 1 + k % 28, k % 10000, k % 1000000, 1 + k % 28, (k + 1) % 24, (k + 7) % 60);
+    // the output date is usually later than the input (MIR) date
+    let base = format!("O{mt}{:02}{:02}2501{:02}BANKBEBBAXXX{:04}{:06}2502{:02}{:02}{:02}", k % 24, k % 60, 1 + k % 28, k % 10000, k % 1000000, 1 + (k + 3) % 28, (k + 1) % 24, (k + 7) % 60);
     if len == 47 { format!("{base}{}", ["N", "U", "S"][k % 3]) } else { base }
 }
 
